@@ -200,12 +200,17 @@ def marshalG2M : Option (Nat × Nat × Nat × Nat) → Bytes
 /-- what `UnmarshalBinary` stores for a coordinate it read -/
 def storeCoord (x : Nat) : Nat := montEncode x
 
-/-- `pdkg.go decodePubKey`: `MarshalBinary` then bytes `32i+1 .. 32i+33` as big-endian numbers;
-slicing a 1-byte identity encoding panics (F12) -/
+/-- Go `b[lo:hi]` -/
+def sliceRange (b : Bytes) (lo hi : Nat) : Out Bytes :=
+  if lo ≤ hi ∧ hi ≤ b.length then .ok ((b.drop lo).take (hi - lo))
+  else .panic "slice bounds out of range"
+
+/-- `pdkg.go decodePubKey`: `MarshalBinary` then bytes `32i+1 .. 32i+33` (i = 0..3) as big-endian
+numbers; slicing a 1-byte identity encoding panics (F12) -/
 def decodePubKey (enc : Bytes) : Out (List Nat) :=
-  [0, 1, 2, 3].mapM (fun i =>
-    if 32 * i + 33 ≤ enc.length then .ok (beNat ((enc.drop (32 * i + 1)).take 32))
-    else .panic "slice bounds out of range")
+  match sliceRange enc 1 33, sliceRange enc 33 65, sliceRange enc 65 97, sliceRange enc 97 129 with
+  | .ok a, .ok b, .ok c, .ok d => .ok [beNat a, beNat b, beNat c, beNat d]
+  | _, _, _, _ => .panic "slice bounds out of range"
 
 /-- `vss.go Signature.ToBigInt`: `Signature[0:32]`, `Signature[32:]` -/
 def sigToBigInt (sig : Bytes) : Out (Nat × Nat) :=
